@@ -25,17 +25,27 @@ func c13WalkWithDeletes(r *rep.Reporter, n int) {
 		}
 		keys := []string{"a", "b/1", "b/2", "c", "d"}[:2+rng.Intn(4)]
 		var trace []string
+		// versions of the keys are created in interleaved order: version ids grow bucket-wide, so a
+		// later key may well hold versions older than an earlier key's
+		var plan []string
 		for _, k := range keys {
 			for v := 0; v < 1+rng.Intn(4); v++ {
-				if rng.Intn(6) == 0 {
-					s.Delete(bucket, k)
-					trace = append(trace, "delete "+k)
-					continue
-				}
+				plan = append(plan, k)
+			}
+		}
+		for i := len(plan) - 1; i > 0; i-- {
+			j := rng.Intn(i + 1)
+			plan[i], plan[j] = plan[j], plan[i]
+		}
+		for v, k := range plan {
+			if rng.Intn(6) == 0 {
+				s.Delete(bucket, k)
+				trace = append(trace, "delete "+k)
+			} else {
 				s.Put(bucket, k, []byte(fmt.Sprintf("%s v%d of case %d", k, v, idx)), nil)
 				trace = append(trace, "put "+k)
 			}
-			if idx%4 == 2 && rng.Intn(2) == 0 {
+			if idx%4 == 2 && rng.Intn(5) == 0 {
 				setVersioning(s, bucket, []string{"Suspended", "Enabled"}[rng.Intn(2)])
 			}
 		}
@@ -84,8 +94,16 @@ func c13WalkWithDeletes(r *rep.Reporter, n int) {
 				}
 				keyM, verM = pg.NextKeyMarker, pg.NextVersionIDMarker
 				// delete the version the markers name, if they name one of the original entries
+				wholeKey := rng.Intn(4) == 0 // the marker's key disappears altogether
 				if verM != "" && verM != "null" && rng.Intn(3) != 0 {
 					for _, e := range before.Entries {
+						if wholeKey && e.Key == keyM && e.VersionID != verM && e.VersionID != "null" && e.VersionID != "" && !deleted[id(e)] {
+							if d := s.Do(&drv.Req{Method: "DELETE", Path: drv.ObjPath(bucket, keyM), Query: drv.Q("versionId", e.VersionID)}); d.Status == 204 {
+								deleted[id(e)] = true
+								steps = append(steps, fmt.Sprintf("deleted %s version %s (whole key)", keyM, short(e.VersionID)))
+								r.Count("marker_keys_deleted_between_pages", 1)
+							}
+						}
 						if e.Key == keyM && e.VersionID == verM && !deleted[id(e)] {
 							d := s.Do(&drv.Req{Method: "DELETE", Path: drv.ObjPath(bucket, keyM), Query: drv.Q("versionId", verM)})
 							if d.Status == 204 {
